@@ -73,12 +73,20 @@ enum TreeValue {
 /// Given a string representing a Newick tree, tries to parse it and
 /// returns the `TreeValue` of the root
 fn parse_newick_file(content: &str) -> Result<TreeValue> {
+    /// The text of a `name` pair. The implicit whitespace of the grammar lets the span of a
+    /// one-character name run over the blanks that follow it; they are not part of the name.
+    fn name_of(pair: Pair<Rule>) -> String {
+        pair.as_str()
+            .trim_end_matches(|c| matches!(c, ' ' | '\t' | '\n' | '\r'))
+            .into()
+    }
+
     fn parse_value(pair: Pair<Rule>) -> TreeValue {
         match pair.as_rule() {
             Rule::Leaf => {
-                let name = pair.into_inner().next().unwrap().as_str();
+                let name = name_of(pair.into_inner().next().unwrap());
                 TreeValue::Node {
-                    name: Some(name.into()),
+                    name: Some(name),
                     children: None,
                 }
             }
@@ -93,7 +101,7 @@ fn parse_newick_file(content: &str) -> Result<TreeValue> {
                         .collect(),
                 );
                 let name = if let Some(clade) = inner_rules.next() {
-                    Some(clade.as_str().into())
+                    Some(name_of(clade))
                 } else {
                     None
                 };
